@@ -44,3 +44,15 @@ pub proof fn lemma_conv_fits(ss: bool, ws: int, fs: int, sd: bool, wd: int, fd: 
         }
     }
 }
+
+// a conversion that drops no fraction bit is a plain scaling: floor(b * 2^fd / 2^fs) == b * 2^(fd - fs) for fs <= fd
+pub proof fn lemma_conv_exact(b: int, fs: int, fd: int)
+    ensures 0 <= fs <= fd ==> R_conv(b, fs, fd) == b * p2(fd - fs)
+{
+    if 0 <= fs <= fd {
+        lemma_p2_add(fs, fd - fs); lemma_p2_pos(fs); lemma_p2_pos(fd - fs);
+        let (ps, k) = (p2(fs), p2(fd - fs));
+        assert(b * p2(fd) == ps * (b * k) + 0) by (nonlinear_arith) requires p2(fd) == ps * k;
+        lemma_fundamental_div_mod_converse_div(b * p2(fd), ps, b * k, 0);
+    }
+}
